@@ -11,6 +11,10 @@ from dst import runner
 # property -> list of (engine, profile, quick runs, thorough runs)
 PLANS = {
     "C20": [("D", "default", 600, 12000)],
+    "C16": [("A", "rsa", 120, 2400)],
+    "C17": [("A", "rsa", 120, 2400)],
+    "C07": [("A", "rsa", 120, 2400)],
+    "C18": [("A", "rsa", 160, 3000)],
 }
 BUDGET = {"quick": 170.0, "thorough": 2100.0}
 
